@@ -970,7 +970,19 @@ class Interp:
                     rec(i + 1, sub)
         rec(0, dict(env))
 
+    def _opaque_comp(self, e, env, mi):
+        try:
+            it = self.eval(e.generators[0].iter, env, mi)
+        except AnalysisError:
+            return None
+        if isinstance(it, Opaque):
+            return Opaque('comprehension over ⊤')
+        return None
+
     def ex_ListComp(self, e, env, mi):
+        op = self._opaque_comp(e, env, mi)
+        if op is not None:
+            return op
         out = []
         self._comp(e.generators, env, mi, lambda en: out.append(self.eval(e.elt, en, mi)))
         return out
@@ -978,11 +990,17 @@ class Interp:
     ex_GeneratorExp = ex_ListComp
 
     def ex_SetComp(self, e, env, mi):
+        op = self._opaque_comp(e, env, mi)
+        if op is not None:
+            return op
         out = set()
         self._comp(e.generators, env, mi, lambda en: out.add(self.eval(e.elt, en, mi)))
         return out
 
     def ex_DictComp(self, e, env, mi):
+        op = self._opaque_comp(e, env, mi)
+        if op is not None:
+            return op
         out = {}
         self._comp(e.generators, env, mi,
                    lambda en: out.__setitem__(self.eval(e.key, en, mi), self.eval(e.value, en, mi)))
